@@ -159,14 +159,30 @@ func awaitPandoraTermination(pandora *engine.Engine, gracefulShutdown func(), er
 			log.Fatal("Unexpected signal received. Quiting.", zap.Stringer("signal", sig))
 		}
 
+		timeout := time.After(interruptTimeout)
+		var runErr error
 		select {
-		case <-time.After(interruptTimeout):
+		case <-timeout:
 			log.Fatal("Interrupt timeout exceeded")
 		case sig := <-sigs:
 			log.Fatal("Another signal received. Quiting.", zap.Stringer("signal", sig))
-		case err := <-errs:
-			log.Fatal("Engine interrupted", zap.Error(err))
+		case runErr = <-errs:
 		}
+		// Engine run returns right after cancel, but started tasks are still finishing:
+		// aggregators should write out reported samples before exit.
+		waited := make(chan struct{})
+		go func() {
+			pandora.Wait()
+			close(waited)
+		}()
+		select {
+		case <-timeout:
+			log.Fatal("Interrupt timeout exceeded")
+		case sig := <-sigs:
+			log.Fatal("Another signal received. Quiting.", zap.Stringer("signal", sig))
+		case <-waited:
+		}
+		log.Fatal("Engine interrupted", zap.Error(runErr))
 
 	case err := <-errs:
 		switch err {
